@@ -26,6 +26,12 @@ type tree struct {
 	namespace string            // the current namespace, for fully-qualifying template.
 	aliases   map[string]string // map from alias to namespace e.g. {"c": "a.b.c"}
 	inmsg     bool              // true while parsing children of a message node.
+
+	// set in the parser of a quoted sub-expression (see parseQuotedExpr): the
+	// scanner of the enclosing file and the position in it where errors of the
+	// sub-expression are reported.
+	fileLex *lexer
+	filePos ast.Pos
 }
 
 // SoyFile parses the input into a SoyFileNode (the AST).
@@ -811,7 +817,14 @@ func (t *tree) boolAttr(attrs map[string]string, key string, defaultValue bool) 
 // parseQuotedExpr ignores the current lex/parse state and parses the given
 // string as a standalone expression.
 func (t *tree) parseQuotedExpr(str string) ast.Node {
-	var tt = &tree{lex: lexExpr("", str)}
+	// positions inside the attribute value mean nothing to a reader of the file:
+	// errors in it are reported in this file, at the token last read (the
+	// command that carries the attribute).
+	var at = t.token[0]
+	if t.peekCount > 0 {
+		at = t.token[t.peekCount-1]
+	}
+	var tt = &tree{name: t.name, lex: lexExpr(t.name, str), fileLex: t.lex, filePos: at.pos}
 	defer tt.lex.drain()
 	return tt.parseExpr(0)
 }
@@ -1251,17 +1264,13 @@ func (t *tree) errorf(format string, args ...interface{}) {
 // and terminates processing.
 func (t *tree) errorfAt(pos ast.Pos, format string, args ...interface{}) {
 	t.root = nil
-	format = fmt.Sprintf("template %s:%d:%d: %s", t.name,
-		t.lex.lineNumber(pos), t.lex.columnNumber(pos), format)
-	panic(
-		errortypes.NewErrFilePosf(
-			t.name,
-			t.lex.lineNumber(pos),
-			t.lex.columnNumber(pos),
-			format,
-			args...,
-		),
-	)
+	var lx = t.lex
+	if t.fileLex != nil {
+		lx, pos = t.fileLex, t.filePos
+	}
+	var line, col = lx.lineNumber(pos), lx.columnNumber(pos)
+	format = fmt.Sprintf("template %s:%d:%d: %s", t.name, line, col, format)
+	panic(errortypes.NewErrFilePosf(t.name, line, col, format, args...))
 }
 
 // error terminates processing.
